@@ -417,6 +417,26 @@ func genWatchIn(r *hx.Rand, maxLen int) watchIn {
 		if i == 0 {
 			good = true
 		}
+		if i > 0 && len(goodIdx) > 0 && r.Chance(1, 5) {
+			// a renewal: the same file names as an earlier usable material, other certificates and keys
+			src := in.Mats[goodIdx[r.Intn(len(goodIdx))]]
+			if !src.Nil && len(src.Files) > 0 {
+				d := r.Range(1, nKeys-1)
+				ren := wMat{}
+				for _, f := range src.Files {
+					if f.C >= 0 {
+						f.C = (f.C + d) % nKeys
+					}
+					if f.K >= 0 {
+						f.K = (f.K + d) % nKeys
+					}
+					ren.Files = append(ren.Files, f)
+				}
+				in.Mats = append(in.Mats, ren)
+				goodIdx = append(goodIdx, i)
+				continue
+			}
+		}
 		in.Mats = append(in.Mats, genMat(r, good))
 		if good {
 			goodIdx = append(goodIdx, i)
